@@ -1665,8 +1665,6 @@ sexp sexp_div (sexp ctx, sexp a, sexp b) {
 #if SEXP_USE_COMPLEX
 #if SEXP_USE_RATIOS
   case SEXP_NUM_CPX_RAT:
-    b = tmp = sexp_make_flonum(ctx, sexp_ratio_to_double(ctx, b));
-    /* ... FALLTHROUGH ... */
 #endif
   case SEXP_NUM_CPX_FLO:
   case SEXP_NUM_CPX_FIX:
@@ -1675,9 +1673,6 @@ sexp sexp_div (sexp ctx, sexp a, sexp b) {
     /* ... FALLTHROUGH ... */
 #if SEXP_USE_RATIOS
   case SEXP_NUM_RAT_CPX:
-    if (sexp_ratiop(a))
-      a = tmp = sexp_make_flonum(ctx, sexp_ratio_to_double(ctx, a));
-    /* ... FALLTHROUGH ... */
 #endif
   case SEXP_NUM_FLO_CPX:
   case SEXP_NUM_FIX_CPX:
